@@ -45,3 +45,31 @@ CHECKS['C08'] = dict(
          'clearing with the constant False on the input array, same array returned); the schema\'s properties (exact removal of short runs, no new True, '
          'idempotence, end runs) follow from the hand argument in DESIGN.md. Non-ndarray input is rejected.',
     note='Trusted: hand argument for the schema; np.diff(prepend/append), np.flatnonzero, slice assignment semantics.')
+
+CHECKS['C09'] = dict(
+    technique='relational symbolic check: normal form of the trough-centred run equals the mirror transformation of the peak-centred run on the negated signal (shape table), and feature-by-feature on mirrored abstract tables',
+    text='For all inputs, compute_shape_features(sig, trough) is column-for-column the mirror image (names swapped, extremum voltages negated, symmetry '
+         '1-x) of compute_shape_features(-sig, peak); every burst feature on a trough table equals the same feature on its peak-centred mirror image with the '
+         'negated signal; labelling reads only burst features; the burst features receive the un-negated signal. Not decided: bit-level identity of filtering -x vs x.',
+    note='Trusted: oddness/evenness model entries (filter, amp_by_time, dual threshold mask); find_extrema/find_zerox abstracted identically in both runs.')
+
+CHECKS['C14'] = dict(
+    technique='symbolic evaluation of the class methods on a modelled heap object (argument-name binding, stored-result equality, index agreement) + closed effect summaries over self attributes',
+    text='Reduces "fit equals compute_features for every history" to structure that is decided for all histories: fit makes exactly one compute_features call whose '
+         'nine arguments are the stored settings / call arguments bound by name, no previous result or fitted state reaches it, only result attributes are assigned and no '
+         'method writes through a stored option object or an argument; reduce_thresholds / recompute_edges / __getattr__ / load / plot have their documented normal '
+         'forms; group models are loaded from the same position of df_features and sigs into distinct rows. Table values are not compared.',
+    note='Trusted: purity of compute_features (decided by C15); python attribute semantics; the binding oracle of DESIGN.md A.6.')
+CHECKS['C15'] = dict(
+    technique='flow-sensitive alias/effect analysis with type-guard refinement and per-function summaries closed over the resolved call graph (fixpoint); who-may-write rules',
+    text='For all call histories: the closed effect summary of each of the 27 claimed public functions contains no write through any parameter (stores, del, '
+         'augmented assignment, mutators, inplace=True, callee effects incl. **dict expansion); package-wide no write to read-only pandas views, no lost chained '
+         'store, no module-level or shared-default state, no caching decorator, no RNG/clock except the documented plot jitter. Embedded positive examples must fire on every run.',
+    note='Trusted: model of which numpy/pandas operations return fresh objects / views / read-only views under pandas>=3 copy-on-write; external callees do not '
+         'write their inputs; docstring/naming-derived kinds for parameters.')
+CHECKS['C16'] = dict(
+    technique='schema conformance by symbolic normal-form equality with reference edge code + write-set query + effect summaries (copy-first, no lost update, no read-only write)',
+    text='recompute_edges is shown to copy first, locate edges from is_burst transitions (even -> cycle before looks "next", odd -> cycle after looks "last"), edit exactly the '
+         'two consistency cells of each edge row with element 1 of the 3-row directional consistency, and return detect_bursts_cycles of the edited table with the given '
+         'thresholds; one-sided consistency definitions checked for both centrings; no chained (lost) store. Not decided: "bursts only grow" as a value statement.',
+    note='Trusted: reference in sa/refspec/edges.py; DataFrame.iloc store / copy semantics; C05 definitions.')
